@@ -42,7 +42,7 @@ def one(pid, evdir):
 
 def run_seed(d):
     patch = os.path.join(d, "patch.diff")
-    st = subprocess.run(["git", "-C", REPO, "status", "--porcelain"], capture_output=True, text=True).stdout
+    st = subprocess.run(["git", "-C", REPO, "status", "--porcelain", "--untracked-files=no"], capture_output=True, text=True).stdout
     if st.strip():
         sys.exit("refusing: %s has uncommitted changes" % REPO)
     evdir = tempfile.mkdtemp(prefix="hv-seed-")
